@@ -27,7 +27,8 @@ import traceback
 HERE = os.path.dirname(os.path.abspath(__file__))
 VERIF = os.path.dirname(HERE)
 sys.path.insert(0, HERE)
-sys.path.insert(0, '/repo')  # import static_frame from the working tree
+REPO = os.environ.get('SFV_REPO', '/repo')  # the tree under test (seeded-mutation runs point this at a scratch copy)
+sys.path.insert(0, REPO)  # import static_frame from the working tree
 
 from sfv import lean  # noqa: E402
 
@@ -179,7 +180,7 @@ def main():
     if not a.no_build:
         with lean.Locked():
             subprocess_run_gen_all()
-            terrs = lean.regen('/repo')
+            terrs = lean.regen(REPO)
             broken += [f'translation: {e}' for e in terrs]
             ok, log = lean.build(targets + ['SFModel.Drv.All'])
             if not ok:
